@@ -107,6 +107,30 @@ func (c *Ctx) Behaviours(module, cfg string, inline map[string]string, timeout t
 	return out, nil
 }
 
+// Simulate runs a GEN config in TLC's simulation mode (seeded) and returns the
+// distinct behaviours it printed.
+func (c *Ctx) Simulate(module, cfg string, inline map[string]string, num, depth int, seed int64) ([]string, error) {
+	res, err := c.TLC(tlc.Run{Module: module, Cfg: cfg, Timeout: 10 * time.Minute, Workers: 1, Inline: inline,
+		Simulate: fmt.Sprintf("num=%d", num), Depth: depth, Seed: seed})
+	if err != nil {
+		return nil, err
+	}
+	if res.Violated != "" {
+		return nil, fmt.Errorf("GEN %s/%s: unexpected violation %s", module, cfg, res.Violated)
+	}
+	seen := map[string]bool{}
+	var out []string
+	for _, p := range res.Printed {
+		s, ok := tlc.Unquote(p)
+		if ok && strings.HasPrefix(s, "BEH ") && !seen[s] {
+			seen[s] = true
+			out = append(out, s[4:])
+		}
+	}
+	c.logf("gen %s/%s: simulation seed %d, %d distinct behaviours, %.1fs", module, cfg, seed, len(out), res.Wall.Seconds())
+	return out, nil
+}
+
 // ---------------------------------------------------------------------------
 
 type shard struct {
@@ -172,15 +196,41 @@ func (c *Ctx) Execute(name string, cases []Case, race bool) (string, error) {
 		return "", err
 	}
 	defer of.Close()
+	// write the traces in the order of the case list (comparison groups are adjacent there)
+	byCase := map[string][][]byte{}
+	needle := []byte(`"case":"`)
 	for _, sh := range shards {
 		b, err := os.ReadFile(sh.out)
 		if err != nil {
 			return "", err
 		}
-		of.Write(b)
 		os.Remove(sh.out)
+		for _, ln := range bytes.SplitAfter(b, []byte("\n")) {
+			if len(ln) == 0 {
+				continue
+			}
+			id := ""
+			if i := bytes.Index(ln, needle); i >= 0 {
+				rest := ln[i+len(needle):]
+				if j := bytes.IndexByte(rest, '"'); j >= 0 {
+					id = string(rest[:j])
+				}
+			}
+			byCase[id] = append(byCase[id], ln)
+		}
 	}
-	return all, nil
+	w := bufio.NewWriterSize(of, 1<<20)
+	for _, cs := range cases {
+		id := cs.Header().ID
+		for _, ln := range byCase[id] {
+			w.Write(ln)
+		}
+		delete(byCase, id)
+	}
+	for id, lns := range byCase {
+		return "", fmt.Errorf("trace lines for unknown case %q (%d lines)", id, len(lns))
+	}
+	return all, w.Flush()
 }
 
 // runShard runs one worker; when the worker dies or hangs in a case, a
@@ -301,7 +351,12 @@ func (c *Ctx) Validate(module, cfg, trace string, impl bool) ([]Viol, int, error
 	if st.Size() == 0 {
 		return nil, 0, nil
 	}
-	res, err := c.TLC(tlc.Run{Module: module, Cfg: cfg, Workers: 1, Timeout: 20 * time.Minute,
+	if keep := os.Getenv("VERIF_KEEP"); keep != "" { // debugging aid: keep the trace files
+		if b, err := os.ReadFile(trace); err == nil {
+			os.WriteFile(filepath.Join(keep, filepath.Base(trace)), b, 0o644)
+		}
+	}
+	res, err := c.TLC(tlc.Run{Module: module, Cfg: cfg, Workers: 1, Timeout: 10 * time.Minute,
 		Files: map[string]string{"trace.ndjson": trace}})
 	if err != nil {
 		return nil, 0, err
